@@ -392,7 +392,21 @@ func runC04(run *Run, seed int64, sc c04Scn, rng *rand.Rand) (out []*c01Result, 
 						_ = a.ML().UpdateNode(5 * time.Second)
 					}
 				}()
-				if a != b {
+				if nextID < sc.N+3 && rng.Intn(2) == 0 {
+					// ... a brand-new member, which has never heard of anybody, joins through that very node
+					nd, err := mk(nextID)
+					nextID++
+					if err != nil {
+						fail("harness/create", "%v", err)
+						return
+					}
+					go func() {
+						if _, err := nd.ML().Join([]string{a.EP.Addr}); err != nil {
+							c.sink.add(nd.Name, "C04/harness/join", "late join failed: %v", err)
+						}
+					}()
+					run.Cell("op", "update-announced-late+newcomer")
+				} else if a != b {
 					go func() { _, _ = b.ML().Join([]string{a.EP.Addr}) }()
 				}
 				run.Cell("op", "update-announced-late")
